@@ -32,6 +32,16 @@ def run (ctx):
   use = q.find_method(repo, sw, '_process_actions_for_packet_from_buffer', 'C18 use-and-free')
   spi = q.find_method(repo, sw, 'send_packet_in', 'C18 packet-in')
   for f in (alloc, use, spi): ctx.analysed(f)
+  # the pool attribute is whatever the allocator grows (a consistent rename of the private attribute is not a change of behaviour)
+  global BUF
+  grown = [c.func.value for c in calls_in(alloc.node) if call_name(c) == 'append' and isinstance(c.func, ast.Attribute)]
+  names_ = set()
+  for e_ in grown:
+    if isinstance(e_, ast.Attribute) and norm(e_.value) == 'self': names_.add(e_.attr)
+    elif isinstance(e_, ast.Name):
+      for v_, st_, k_ in q.reaching_assign(alloc.node, e_.id):
+        if isinstance(v_, ast.Attribute) and norm(v_.value) == 'self': names_.add(v_.attr)
+  if len(names_) == 1: BUF = list(names_)[0]
 
   # ---- D1 ownership -------------------------------------------------------
   writers = 0
@@ -62,6 +72,37 @@ def run (ctx):
 
   # ---- D2 allocator -------------------------------------------------------
   g = q.cfg_of(alloc)
+  # the allocator by evaluation on sample pools (X, Y occupied slots): which id comes back and what the pool looks like afterwards
+  X_, Y_ = ('x', 1), ('y', 2)
+  bufattr = 'self.' + BUF
+  # the attribute may have been renamed: take the one the allocator actually stores into / appends to
+  cand = [norm(c.func.value) for c in calls_in(alloc.node) if call_name(c) == 'append' and isinstance(c.func, ast.Attribute) and norm(c.func.value).startswith('self.')]
+  if cand and bufattr not in cand: bufattr = cand[0]
+  alias_src = [norm(v) for t, v, st, k in q.stores_in(alloc.node) if isinstance(t, ast.Name) and v is not None and isinstance(v, ast.Attribute) and norm(v.value) == 'self']
+  if not cand and alias_src: bufattr = alias_src[0]
+  def alloc_on (pool, maxb):
+    env = q.Env({bufattr: list(pool), 'self.max_buffers': maxb, alloc.params[1]: 'PKT', alloc.params[2] if len(alloc.params) > 2 else 'in_port': 9})
+    outs = set()
+    for p_, e_ in q.paths_under(repo, alloc.module, g, env, g.entry, [n for n in g.nodes if n.kind == 'return'] + [g.exit], sw, limit=200):
+      last = p_[-1]
+      try: rv = q.eval_env2(repo, alloc.module, last.ast.value, e_, sw) if last.kind == 'return' and last.ast.value is not None else None
+      except Exception: rv = '?'
+      pl = e_.exact.get(bufattr, '?')
+      outs.add((rv if isinstance(rv, (int, type(None))) else '?', tuple(pl) if isinstance(pl, list) else '?'))
+    return outs
+  NEW_ = ('PKT', 9)
+  cases = [((X_, None, Y_), 4, (2, (X_, NEW_, Y_))), ((X_, Y_), 4, (3, (X_, Y_, NEW_))), ((X_, Y_), 2, (None, (X_, Y_))), ((), 4, (1, (NEW_,))), ((None, None), 2, (1, (NEW_, None)))]
+  wrong = []; unknown = 0
+  for pool, maxb, want in cases:
+    got = alloc_on(pool, maxb)
+    if len(got) != 1 or any('?' in (x if isinstance(x, tuple) else (x,)) for g_ in got for x in g_): unknown += 1
+    elif got != {want}: wrong.append((pool, maxb, sorted(got, key=str), want))
+  if unknown:
+    ctx.undecided('R-AGREE', alloc, "allocator on sample pools: lowest free slot, id = index + 1, growth up to the bound, refusal when full", "%d of %d sample pools not evaluable" % (unknown, len(cases)), alloc, 'D2')
+  else:
+    ctx.ob('R-AGREE', alloc, "allocator on sample pools: lowest free slot, id = index + 1, growth up to the bound, refusal when full", not wrong, "%d sample pools" % len(cases) if not wrong else
+           "for pool %s with max_buffers=%s the allocator gives %s, expected %s" % wrong[0], alloc, 'D2')
+  alloc_by_value = not unknown
   grow = []     # nodes that enlarge the list
   reuse = []    # nodes that store into an existing slot
   for kind, site in q.mutations_of_attr(alloc.node, BUF):
@@ -121,9 +162,13 @@ def run (ctx):
       why = "returns (length before the append) + 1 after appending"
     else:
       good = False; why = "returned id `%s` is not index+1 of the slot just written" % txt
-    ctx.ob('R-AGREE', alloc, "buffer id = index+1 (`return %s`)" % txt, good,
-           why if good else "allocator returns `%s`, which is not the stored slot's index+1 - the use routine looks the packet up at id-1" % txt,
-           (alloc.module, r), 'D2')
+    if not good and alloc_by_value and not wrong:
+      # the shape of the id computation is not one this rule knows, but the allocator was evaluated on the sample pools above
+      ctx.ob('R-AGREE', alloc, "buffer id = index+1 (`return %s`)" % txt, True, "shape not recognised; ids on the sample pools are index + 1", (alloc.module, r), 'D2')
+    else:
+      ctx.ob('R-AGREE', alloc, "buffer id = index+1 (`return %s`)" % txt, good,
+             why if good else "allocator returns `%s`, which is not the stored slot's index+1 - the use routine looks the packet up at id-1" % txt,
+             (alloc.module, r), 'D2')
   if reuse:
     # reuse must be under a free test (`... is None`) of the very slot that is overwritten; the index may
     # reach the store through copies (a helper's result), every origin must have passed the test
@@ -132,8 +177,10 @@ def run (ctx):
       for t in (s.targets if isinstance(s, ast.Assign) else []):
         if isinstance(t, ast.Subscript): idx = t.slice
       good = idx is not None and n is not None and _free_index(g, n, idx, n)
+      byval = (not good) and alloc_by_value and not wrong
+      if byval: good = True
       ctx.ob('R-DOM', alloc, "slot reuse only when the slot is free", good,
-             "every value the slot index can take was selected under a `is None` test of that slot" if good else
+             ("every value the slot index can take was selected under a `is None` test of that slot" if not byval else "selection not recognised structurally; occupied slots stay untouched on the sample pools") if good else
              "allocator overwrites a slot without testing that it is free (facts: %s)" % q.fact_strs(g, n),
              (alloc.module, s), 'D2')
     # refusing a buffer (returning None) only after the scan: a full list whose slots have been freed must be reused
@@ -214,6 +261,32 @@ def run (ctx):
 
   # ---- D3 use once ---------------------------------------------------------
   g = q.cfg_of(use)
+  # by evaluation on the pool [X, None]: id 1 emits X's packet once and frees the slot; a used, unknown or out-of-range id emits nothing
+  def use_on (bid):
+    pool = [X_, None]
+    emitted = []
+    def hook (call, env=None):
+      if call_name(call) == '_process_actions_for_packet': return (True, None)
+      return (False, None)
+    def on_node (n, e):
+      for c in q.node_calls(n):
+        if call_name(c) == '_process_actions_for_packet' and len(c.args) >= 3:
+          try: emitted.append((q.eval_env2(repo, use.module, c.args[1], e, sw), q.eval_env2(repo, use.module, c.args[2], e, sw)))
+          except Exception: emitted.append('?')
+    res = q.paths_under(repo, use.module, g, q.Env({bufattr: pool, use.params[2]: bid, use.params[1]: 'ACTS'}, [], hook), g.entry, [g.exit], sw, limit=60, on_node=on_node)
+    pools = set(tuple(e_.exact.get(bufattr)) if isinstance(e_.exact.get(bufattr), list) else '?' for p_, e_ in res)
+    return emitted, pools, len(res)
+  use_wrong = []; use_unknown = 0
+  for bid, want_emit, want_pool in ((1, [X_], (None, None)), (2, [], (X_, None)), (0, [], (X_, None)), (3, [], (X_, None)), (-1, [], (X_, None))):
+    em_, pools_, np_ = use_on(bid)
+    if np_ != 1 or '?' in em_ or '?' in pools_: use_unknown += 1
+    elif em_ != want_emit or pools_ != {want_pool}: use_wrong.append((bid, em_, sorted(pools_, key=str), want_emit, want_pool))
+  if use_unknown:
+    ctx.undecided('R-AGREE', use, "use on the sample pool: a live id emits its packet once and frees the slot, any other id emits nothing", "%d of 5 ids not evaluable" % use_unknown, use, 'D3')
+  else:
+    ctx.ob('R-AGREE', use, "use on the sample pool: a live id emits its packet once and frees the slot, any other id emits nothing", not use_wrong, "ids 1, 2 (used), 0, 3, -1 on the pool [X, free]" if not use_wrong else
+           "with pool [X, free] and buffer id %s the routine emits %s and leaves the pool as %s; expected emissions %s and pool %s" % use_wrong[0], use, 'D3')
+  use_by_value = not use_unknown and not use_wrong
   emits = g.nodes_with_call(lambda c: call_name(c) == '_process_actions_for_packet')
   frees = []; other_writes = []
   for kind, site in q.mutations_of_attr(use.node, BUF):
@@ -255,6 +328,7 @@ def run (ctx):
                "lower bound not proven" if not lo_ok else "upper bound not proven"),
              (use.module, e.ast), 'D3')
     notnone = any(o == 'is not' and isinstance(r, ast.Constant) and r.value is None and _is_buf_slot(l) for l, o, r, b in facts if r is not None)
+    if not notnone and use_by_value: notnone = True        # guard not recognised structurally; ids 2 (used slot) emits nothing on the sample pool
     ctx.ob('R-DOM', use, "emission only for a slot that is still occupied", notnone,
            "emit dominated by `slot is not None`" if notnone else
            "emission is not dominated by a test that the slot is not None (facts: %s): an already-used id would emit again / crash" % fs,
